@@ -93,7 +93,7 @@ class Prop:
             'configuration; seeded random schedules with up to 8 messages in flight and up to 9 fragments; through '
             'IterMessages and NMEAQueue; each compared with the Lean model per input position and with the property '
             '(expected deliveries computed from the construction of the schedule); non-trivial = at least one '
-            'multi-fragment message delivered')
+            'multi-fragment message delivered ; the same schedules as a dribbled byte stream through the socket readers; singles whose sequence id reads 0; empty fragments; every reader through its self-consistency family (DESIGN §4.2: next(), two-step consumption, polled source, bounded queue, preprocessors)')
     assumptions = ['fragment sets are complete and in-flight messages occupy distinct slots (the property\'s quantifier); '
                    'stale fragments of incomplete sets in a reused slot are outside it']
 
